@@ -24,7 +24,7 @@ META = {
                    "visibility relation is one step of the dependency relation, that files, module names and roots are registered "
                    "consistently, that the longest root wins and that locality is read off the path. The computations on concrete "
                    "directory trees and gleam.toml contents (project root discovery, path joins, what WalkDir visits) quantify over "
-                   "file-system states and are not decided.",
+                   "file-system states and are not decided. T13 the package graph holds one entry per manifest (add_package searches by gleam_toml before it allocates): which root was opened first does not decide which entry answers.",
     "not_decided": "find_gleam_project_parent and load_package_files on arbitrary directory trees; relative path dependencies that are not "
                    "normalised; symbolic links; whether every file on disk is loaded; behaviour when gleam.toml is malformed.",
     "trusted_base": ["rustc MIR and callee resolution", "std::path component semantics", "salsa inputs are read back as set"],
